@@ -1,4 +1,4 @@
-// Replay of the uint16_t narrowing of add_sample's result in MDSDRV_Linker::add_song (repaired by fix 8d3c42d).
+// Replay of the uint16_t narrowing of add_sample's result in MDSDRV_Linker::add_song (repaired by fix 8769e2a).
 // One MDS file: pcmd = "XY", pcmh #0 = X (slot 0), then n pcmh entries on Y that differ only in loop_end
 // (slot 2; the last one slot 1).  With n = 65536 the wave bank holds 65537 headers; before the fix slot 1
 // resolved to address 0 ('X'), after it to address 1 ('Y').  About 10 minutes at -O2 (std::find over the
